@@ -11,6 +11,7 @@ from vfacts import strip, walk, method_name
 RULE = 'TUPLEPOS'
 FLOOR = 0
 WITNESS = 'src/tuplepos.cc'
+WITNESS_MIN = 3
 ALGOS = {'std::remove', 'std::remove_copy', 'std::remove_if', 'std::remove_copy_if', 'std::unique', 'std::unique_copy', 'std::replace'}
 
 
@@ -56,3 +57,47 @@ def run(unit, em):
             if len(sub) != 2 or sub[0][0] != sub[1][0] or sub[0][1] == sub[1][1]:
                 continue
             em.violation(n, unit.text(n, 70), 'two positions of the same child tuple are compared with each other: a rule may legitimately carry one state at several positions (f(s,s) -> t), and each position has to be expanded on its own — skipping or merging on equality loses the combinations in which the positions are filled differently', 'samepos')
+        # ---- firstpos: std::find on a tuple answers "does the state occur", never "where"
+        from .prov import var_table
+        vt = None
+        for c in fn.calls():
+            if c['k'] != 'CallExpr' or c.get('q') not in ('std::find', 'std::find_if') or not c.get('args'):
+                continue
+            a0 = strip(c['args'][0])
+            if a0 is None or a0['k'] != 'CXXMemberCallExpr' or method_name(a0) not in ('begin', 'cbegin'):
+                continue
+            t = unit.ty(strip(a0.get('obj')) or a0['obj']).replace('const ', '')
+            if not t.startswith('std::vector<unsigned long'):
+                continue
+
+            def consumer(x):
+                p_ = x.get('_p')
+                while p_ is not None and (p_['k'] in ('ImplicitCastExpr', 'MaterializeTemporaryExpr', 'ParenExpr', 'ExprWithCleanups', 'CXXBindTemporaryExpr') or
+                                          (p_['k'] == 'CXXConstructExpr' and 'iterator' in (p_.get('q') or ''))):
+                    p_ = p_.get('_p')
+                return p_
+
+            def is_cmp(p_):
+                return p_ is not None and p_['k'] in ('BinaryOperator', 'CXXOperatorCallExpr') and p_.get('op') in ('==', '!=')
+            txt = unit.text(c, 70)
+            par = consumer(c)
+            if is_cmp(par):
+                em.ok(c, txt, 'membership test only (compared with end())', 'firstpos')
+                continue
+            if vt is None:
+                vt = var_table(fn)
+            holder = None
+            for d_, v_ in vt.items():
+                if v_['kind'] == 'local' and is_node(v_['decl'].get('init')) and any(x is c for x in walk(v_['decl']['init'])):
+                    holder = d_
+            if holder is not None:
+                uses = [x for x in fn.walk() if x['k'] == 'DeclRefExpr' and x.get('d') == holder]
+                other = [x for x in uses if not is_cmp(consumer(x))]
+                if not other:
+                    em.ok(c, txt, 'membership test only (the iterator is only compared)', 'firstpos')
+                    continue
+                c_at = other[0]
+            else:
+                c_at = c
+            em.violation(c_at, txt, 'the position found by %s is used (%s): it is the FIRST occurrence only, but a tuple may carry the state at several positions (f(p,p) -> q) and each of them has to be considered — '
+                         'the positions after the first are silently ignored' % (c['q'], unit.text(consumer(c_at) or c_at, 50)), 'firstpos')
